@@ -651,6 +651,17 @@ impl<R: ChunkReader> SerializedPageReader<R> {
         props: ReaderPropertiesPtr,
     ) -> Result<Self> {
         let decompressor = create_codec(meta.compression(), props.codec_options())?;
+        // offsets and sizes come from the file footer: `byte_range` panics on negative ones
+        let col_start = meta
+            .dictionary_page_offset()
+            .unwrap_or_else(|| meta.data_page_offset());
+        if col_start < 0 || meta.compressed_size() < 0 {
+            return Err(general_err!(
+                "Invalid column chunk metadata: start {} and compressed size {} must not be negative",
+                col_start,
+                meta.compressed_size()
+            ));
+        }
         let (start, len) = meta.byte_range();
 
         let state = match page_locations {
@@ -658,11 +669,21 @@ impl<R: ChunkReader> SerializedPageReader<R> {
                 // If the offset of the first page doesn't match the start of the column chunk
                 // then the preceding space must contain a dictionary page.
                 let dictionary_page = match locations.first() {
-                    Some(dict_offset) if dict_offset.offset as u64 != start => Some(PageLocation {
-                        offset: start as i64,
-                        compressed_page_size: (dict_offset.offset as u64 - start) as i32,
-                        first_row_index: 0,
-                    }),
+                    Some(dict_offset) if dict_offset.offset as u64 != start => {
+                        // the first data page cannot start in front of the column chunk
+                        let size = (dict_offset.offset as u64).checked_sub(start).ok_or_else(|| {
+                            general_err!(
+                                "Invalid offset index: first page at {} lies in front of the column chunk at {}",
+                                dict_offset.offset,
+                                start
+                            )
+                        })?;
+                        Some(PageLocation {
+                            offset: start as i64,
+                            compressed_page_size: size as i32,
+                            first_row_index: 0,
+                        })
+                    }
                     _ => None,
                 };
 
